@@ -7,7 +7,9 @@ import concurrent.futures, os, re, shutil
 import lib, worlds, worldgen
 
 CONFIGS = [(False, ["testdata"]), (True, ["testdata"]), (False, []), (True, []), (True, ["zz_generated", "/gen/"]), (False, ["zz_generated"]),
-           (True, ["/gen/"]), (False, ["zz_generated", "/gen/", "uses_"]), (True, ["_extra_"]), (False, ["nomatch", " "])]
+           (True, ["/gen/"]), (False, ["zz_generated", "/gen/", "uses_"]), (True, ["_extra_"]), (False, ["nomatch", " "]),
+           # entries one of which is a substring of the other: each still counts on its own
+           (True, ["/gen/", "gen"]), (False, ["uses_", "uses", "zz_generated_never", "zz_gen"])]
 
 
 VET_CONFIGS = [(True, ["zz_generated", "/gen/"]), (False, ["zz_generated", "/gen/", "uses_"])]
